@@ -104,6 +104,13 @@ def outcome(fn, *args):
 
 
 def check_value(tn, T, d, v, rec, viol):
+    try:
+        _check_value(tn, T, d, v, rec, viol)
+    except Exception as e:  # a clause that raises is a failing clause, not a harness problem
+        viol("raises", f"{tn}({v}): {type(e).__name__}: {e}", v)
+
+
+def _check_value(tn, T, d, v, rec, viol):
     rec.case((tn, v))
     x = T(v)
     w, s = d["width"], d["signed"]
@@ -134,9 +141,17 @@ def check_value(tn, T, d, v, rec, viol):
 
 def check_ops(tn, T, d, vals, rng, rec, viol):
     lo, hi = limits(d)
-    typed_partners = [T(p) for p in vals[:3]]
+    try:
+        typed_partners = [T(p) for p in vals[:3]]
+    except Exception as e:
+        viol("raises", f"{tn}: constructing {vals[:3]} raised {type(e).__name__}: {e}", vals[0])
+        return
     for v in vals:
-        x = T(v)
+        try:
+            x = T(v)
+        except Exception as e:
+            viol("raises", f"{tn}({v}): {type(e).__name__}: {e}", v)
+            continue
         for opname, op in BINOPS:
             for p in PARTNERS:
                 # keep results small: bounded shifts and powers
@@ -171,7 +186,11 @@ def check_ops(tn, T, d, vals, rng, rec, viol):
                     viol(f"top-{opname}", f"{tn}({v}) {opname} {tn}({yv}): {a} != {b}", v)
         for opname, op in CMPOPS:
             for p in (v - 1, v, v + 1, 0):
-                for args, exp in (((x, p), op(v, p)), ((p, x), op(p, v)), ((x, T(p)) if lo <= p < hi else (x, p), op(v, p))):
+                try:
+                    typed_p = T(p) if lo <= p < hi else p
+                except Exception:
+                    typed_p = p
+                for args, exp in (((x, p), op(v, p)), ((p, x), op(p, v)), ((x, typed_p), op(v, p))):
                     rec.case((tn, opname, v, p))
                     if outcome(op, *args) != ("val", "bool", exp):
                         viol(f"cmp-{opname}", f"{opname}({args[0]!r}, {args[1]!r}) = {outcome(op, *args)} expected {exp}", v)
